@@ -669,21 +669,21 @@ theorem tryBlockConfig_domain {row : Row} {blk : Blk} {a : TryArgs} {cfg : Confi
   rename_i hk
   exact ⟨by omega, by simpa using hk⟩
 
-/-- Acceptance by `try_block_config` depends on `scaled` only through the accumulator type of a
-    non-elementwise operation, and on `ifm2` only through the IFM depth of an operation whose IFM block
-    depth is not the OFM block depth. -/
-theorem try_accept_congr {row : Row} {tail : Nat} (hr : RowOk row tail) {blk : Blk} {a1 a2 : TryArgs} {cfg : Config}
+/-- Acceptance by `try_block_config` depends on `scaled` only through the accumulator type, and on `ifm2`
+    only through the IFM depth of an operation whose IFM block depth is not the OFM block depth.
+    `hacc`: whatever `_try_block_config` accepts with the first accumulator type it accepts with the second. -/
+theorem try_accept_congr {row : Row} {blk : Blk} {a1 a2 : TryArgs} {cfg : Config}
     (h : tryBlockConfig row blk a1 = .ok (some cfg))
     (hsame : a2 = { a1 with scaled := a2.scaled, ifm2 := a2.ifm2 })
-    (hacc : ewUsage a1.bt a1.usesScalar ≠ .no ∨ accType a1.bt a1.ifmBits a1.scaled = accType a1.bt a1.ifmBits a2.scaled)
+    (hacc : ∀ (ofmB ifmB : Blk) (g : Nat) (lut : Int) (L : Layout),
+      tryCore row.reservedOutputBanks row.bankSizeBytes row.totalBanks (ewUsage a1.bt a1.usesScalar) ofmB ifmB a1.ifmBits g
+        (accBitsOf (accType a1.bt a1.ifmBits a1.scaled)) (accGranule row (accType a1.bt a1.ifmBits a1.scaled)) lut = .ok (some L) →
+      ∃ L', tryCore row.reservedOutputBanks row.bankSizeBytes row.totalBanks (ewUsage a1.bt a1.usesScalar) ofmB ifmB a1.ifmBits g
+        (accBitsOf (accType a1.bt a1.ifmBits a2.scaled)) (accGranule row (accType a1.bt a1.ifmBits a2.scaled)) lut = .ok (some L'))
     (hdepth : isEqualDepthOp a1.bt (ewUsage a1.bt a1.usesScalar) = true ∨ a1.view.ifmDepth = a2.view.ifmDepth) :
     ∃ cfg', tryBlockConfig row blk a2 = .ok (some cfg') := by
   obtain ⟨hv, g, L, hg, hL, _⟩ := tryBlockConfig_some h
   obtain ⟨hub, hk⟩ := tryBlockConfig_domain h
-  obtain ⟨_, _, _, _, _, ⟨p16, p32, p40⟩⟩ := hr
-  obtain ⟨b16, b32, b40⟩ := accBits_values
-  have hpos : ∀ t : AccType, 0 < accBitsOf t ∧ 0 < accGranule row t := by
-    intro t; cases t <;> simp [accBitsOf, accGranule, b16, b32, b40, p16, p32, p40]
   have e_bt : a2.bt = a1.bt := by rw [hsame]
   have e_us : a2.usesScalar = a1.usesScalar := by rw [hsame]
   have e_bits : a2.ifmBits = a1.ifmBits := by rw [hsame]
@@ -692,21 +692,140 @@ theorem try_accept_congr {row : Row} {tail : Nat} (hr : RowOk row tail) {blk : B
   have e_lut : a2.lutBanks = a1.lutBanks := by rw [hsame]
   have e_rs : a2.resampling = a1.resampling := by rw [hsame]
   have e_pk : a2.isPartKernel = a1.isPartKernel := by rw [hsame]
-  refine tryBlockConfig_intro (g := g) (L := L) hub hv (e_k ▸ hk) (by rw [e_bt, e_us, e_bits]; exact hg) ?_
-  -- the two `_try_block_config` calls coincide
   have hifm : (tryCtx row a2 g).ifmBlockFor blk = (tryCtx row a1 g).ifmBlockFor blk := by
     unfold Ctx.ifmBlockFor tryCtx
     simp only [e_bt, e_us, e_bits, e_k, e_rs, e_pk]
     rcases hdepth with hd | hd
     · rw [if_pos hd, if_pos hd]
     · rw [hd]
-  unfold Ctx.layoutFor at hL ⊢
+  unfold Ctx.layoutFor at hL
+  simp only [tryCtx] at hL
+  obtain ⟨L', hL'⟩ := hacc _ _ _ _ _ hL
+  refine tryBlockConfig_intro (g := g) (L := L') hub hv (e_k ▸ hk) (by rw [e_bt, e_us, e_bits]; exact hg) ?_
+  unfold Ctx.layoutFor
   rw [hifm]
-  simp only [tryCtx, e_bt, e_us, e_bits, e_k, e_ofm, e_lut] at hL ⊢
-  rcases hacc with hew | hacc
-  · rw [tryCore_ew_indep _ _ _ _ _ _ _ _ _ _ _ _ _ hew (hpos _) (hpos (accType a1.bt a1.ifmBits a1.scaled))]
-    exact hL
-  · rw [← hacc]; exact hL
+  simp only [tryCtx, e_bt, e_us, e_bits, e_k, e_ofm, e_lut]
+  exact hL'
+
+/-- the accumulator hypothesis of `try_accept_congr` when the operation is elementwise or the two
+    accumulator types coincide -/
+theorem acc_hyp_trivial {row : Row} {tail : Nat} (hr : RowOk row tail) (ew : EwUsage) (bits : Nat) (t1 t2 : AccType)
+    (h : ew ≠ .no ∨ t1 = t2) :
+    ∀ (ofmB ifmB : Blk) (g : Nat) (lut : Int) (L : Layout),
+      tryCore row.reservedOutputBanks row.bankSizeBytes row.totalBanks ew ofmB ifmB bits g
+        (accBitsOf t1) (accGranule row t1) lut = .ok (some L) →
+      ∃ L', tryCore row.reservedOutputBanks row.bankSizeBytes row.totalBanks ew ofmB ifmB bits g
+        (accBitsOf t2) (accGranule row t2) lut = .ok (some L') := by
+  intro ofmB ifmB g lut L hL
+  obtain ⟨_, _, _, _, _, ⟨p16, p32, p40⟩⟩ := hr
+  obtain ⟨b16, b32, b40⟩ := accBits_values
+  have hpos : ∀ t : AccType, 0 < accBitsOf t ∧ 0 < accGranule row t := by
+    intro t; cases t <;> simp [accBitsOf, accGranule, b16, b32, b40, p16, p32, p40]
+  rcases h with hew | rfl
+  · exact ⟨L, by rw [tryCore_ew_indep _ _ _ _ _ _ _ _ _ _ _ _ _ hew (hpos t2) (hpos t1)]; exact hL⟩
+  · exact ⟨L, hL⟩
+
+/-- bank need of the 32-bit accumulators never exceeds that of the 40-bit ones when the granules are in the
+    ratio of the widths (or the 32-bit granule divides the 40-bit one) -/
+theorem bankNeed_acc32_le_acc40 (x g32 g40 : Nat)
+    (hg : (g32, g40) = (4, 4) ∨ (g32, g40) = (4, 8) ∨ (g32, g40) = (16, 20)) :
+    bankNeed (x * 32 / 8) 1024 g32 ≤ bankNeed (x * 40 / 8) 1024 g40 := by
+  unfold bankNeed roundUp roundUpDivide
+  rcases hg with h | h | h <;> simp only [Prod.mk.injEq] at h <;> obtain ⟨rfl, rfl⟩ := h
+  · omega
+  · omega
+  · -- both needs are (16 resp. 20) · ⌈x / 2048⌉
+    have t1 : ((x * 32 / 8 + 1024 - 1) / 1024 * 2 + 16 - 1) / 16 = (x + 2047) / 2048 := by omega
+    have t2 : ((x * 40 / 8 + 1024 - 1) / 1024 * 2 + 20 - 1) / 20 = (x + 2047) / 2048 := by omega
+    rw [t1, t2]; omega
+
+/-- **what fits with 40-bit accumulators fits with 32-bit ones on every row whose granule pair is benign**
+    (all rows except Ethos-U55-128, see `Props/C15.lean`) -/
+theorem acc32_fits_of_acc40_fits (reserved total : Nat) (g32 g40 : Nat)
+    (hg : (g32, g40) = (4, 4) ∨ (g32, g40) = (4, 8) ∨ (g32, g40) = (16, 20))
+    (ofmB ifmB : Blk) (bits ig : Nat) (lut : Int) (L : Layout)
+    (h : tryCore reserved 1024 total .no ofmB ifmB bits ig 40 g40 lut = .ok (some L)) :
+    ∃ L', tryCore reserved 1024 total .no ofmB ifmB bits ig 32 g32 lut = .ok (some L') := by
+  have hle := bankNeed_acc32_le_acc40 (blkElementsWh ofmB * roundUp ofmB.depth 8) g32 g40 hg
+  have hg32 : 0 < g32 := by rcases hg with h | h | h <;> simp only [Prod.mk.injEq] at h <;> omega
+  unfold tryCore at h ⊢
+  split at h; · cases h
+  split at h; · cases h
+  rename_i h1 h2
+  rw [if_neg (show ¬¬((32:Nat) > 0 ∧ g32 > 0) by omega), if_neg h2]
+  simp only [show ((1024 : Nat) = 0) = False by simp, if_false] at h ⊢
+  split at h
+  · cases h
+  · rename_i hc
+    unfold accBytes at hc ⊢
+    rw [if_neg (by omega)]
+    exact ⟨_, rfl⟩
+
+/-! ### helpers used by the statements of `Props/C15.lean` -/
+
+theorem kind_cases (op : ApiOp) : op.kind = .conv2d ∨ op.kind = .depthwise ∨ op.kind = .pooling ∨
+    op.kind = .reduceSum ∨ op.kind = .elementwise := by
+  cases op.kind <;> simp
+
+/-- the IFM-depth hypothesis of `try_accept_congr` for the two argument derivations -/
+theorem depth_hyp {crit : ScaledCrit} (op : ApiOp)
+    (hifm2 : (op.kind = .conv2d ∨ op.kind = .reduceSum) → apiIfm2 op = genIfm2 op) :
+    isEqualDepthOp (apiArgs crit op).bt (ewUsage (apiArgs crit op).bt (apiArgs crit op).usesScalar) = true ∨
+      (apiArgs crit op).view.ifmDepth = (genArgs op).view.ifmDepth := by
+  show isEqualDepthOp op.kind.blockType (ewUsage op.kind.blockType op.ifm2Scalar) = true ∨
+    effIfmDepth (blkElements op.ifm.shape) op.ifm.shape.depth ((apiIfm2 op).map fun b => (blkElements b, b.depth)) =
+    effIfmDepth (blkElements op.ifm.shape) op.ifm.shape.depth ((genIfm2 op).map fun b => (blkElements b, b.depth))
+  rcases kind_cases op with hk | hk | hk | hk | hk
+  · right; rw [hifm2 (Or.inl hk)]
+  · left; rw [hk]; simp [isEqualDepthOp, ApiKind.blockType]
+  · left; rw [hk]; simp [isEqualDepthOp, ApiKind.blockType]
+  · right; rw [hifm2 (Or.inr hk)]
+  · left; rw [hk]; simp only [isEqualDepthOp, ewUsage, ApiKind.blockType, if_true]; cases op.ifm2Scalar <;> simp
+
+
+def offers (r : Except Err (List Blk)) (b : Blk) : Bool :=
+  match r with
+  | .ok l => l.contains b
+  | .error _ => false
+
+def isAssert {α : Type} : Except Err α → Bool
+  | .error .assert => true
+  | _ => false
+
+def isOkNone {α : Type} : Except Err (Option α) → Bool
+  | .ok none => true
+  | _ => false
+
+def isOkSome {α : Type} : Except Err (Option α) → Bool
+  | .ok (some _) => true
+  | _ => false
+
+theorem of_isAssert {α : Type} {r : Except Err α} (h : isAssert r = true) : r = .error .assert := by
+  unfold isAssert at h; split at h <;> simp_all
+
+theorem of_isOkNone {α : Type} {r : Except Err (Option α)} (h : isOkNone r = true) : r = .ok none := by
+  unfold isOkNone at h; split at h <;> simp_all
+
+theorem of_isOkSome {α : Type} {r : Except Err (Option α)} (h : isOkSome r = true) : ∃ x, r = .ok (some x) := by
+  unfold isOkSome at h; split at h <;> simp_all
+
+theorem of_offers {r : Except Err (List Blk)} {b : Blk} (h : offers r b = true) : ∃ l, r = .ok l ∧ b ∈ l := by
+  unfold offers at h
+  split at h
+  · rename_i l; exact ⟨l, rfl, by simpa using h⟩
+  · cases h
+
+
+theorem genScaled_imp_apiScaled (crit : ScaledCrit) (op : ApiOp) (h : genScaled op = true) : apiScaled crit op = true := by
+  unfold genScaled at h
+  unfold apiScaled
+  cases crit <;> cases hi : op.ifm2 <;> simp_all
+
+
+/-- a cost arithmetic in which all costs are equal (the theorems hold for any) -/
+def unitOps : CostOps Unit :=
+  { ofNat := fun _ => (), add := fun _ _ => (), mul := fun _ _ => (), div := fun _ _ => (),
+    le := fun _ _ => true, eq := fun _ _ => true }
 
 
 end VelaVerif.Shram
